@@ -769,16 +769,35 @@ func runNftScenario(c *harness.Case, sc *nftScenario, plan *faultPlan, seenKeys 
 	}
 	r := &nftRunner{c: c, sc: sc, plan: plan, d: newDesired(), now: time.Unix(1_700_000_000, 0), fam: fam, savedEpoch: -1, readEpoch: -2, cnt: cnt, seenKeys: seenKeys}
 	r.dp = &nftDP{fake: knftables.NewFake(fam, "calico"), r: r, seq: map[string]int{}}
-	// Foreign tables.
+	// Foreign tables: a Fake bound to Felix's table cannot address other tables through transactions, so
+	// they are planted directly into the fake's table map (Run copies and keeps every table it knows).
+	mkTable := func(f knftables.Family, name string, chains map[string][][2]string) *knftables.FakeTable {
+		t := &knftables.FakeTable{Table: knftables.Table{Family: f, Name: name}, Flowtables: map[string]*knftables.FakeFlowtable{},
+			Chains: map[string]*knftables.FakeChain{}, Sets: map[string]*knftables.FakeSet{}, Maps: map[string]*knftables.FakeMap{},
+			Counters: map[string]*knftables.FakeCounter{}}
+		for cn, rules := range chains {
+			ch := &knftables.FakeChain{Chain: knftables.Chain{Family: f, Table: name, Name: cn}}
+			for _, rl := range rules {
+				var cm *string
+				if rl[1] != "" {
+					cm = knftables.PtrTo(rl[1])
+				}
+				ch.Rules = append(ch.Rules, &knftables.Rule{Family: f, Table: name, Chain: cn, Rule: rl[0], Comment: cm})
+			}
+			t.Chains[cn] = ch
+		}
+		return t
+	}
+	r.dp.fake.Lock()
+	r.dp.fake.Tables = map[knftables.Family]map[string]*knftables.FakeTable{
+		fam: {"kube-proxy": mkTable(fam, "kube-proxy", map[string][][2]string{
+			"cali-looks-like": nil,
+			"filter-FORWARD":  {{"ct state invalid drop", "cali:abcdefgh12345678; not ours"}, {"jump cali-looks-like", ""}},
+		})},
+		other: {"calico": mkTable(other, "calico", map[string][][2]string{"filter-INPUT": {{"counter accept", "cali:ZZZZZZZZZZZZZZZZ;"}}})},
+	}
+	r.dp.fake.Unlock()
 	tx := r.dp.fake.NewTransaction()
-	tx.Add(&knftables.Table{Family: fam, Name: "kube-proxy"})
-	tx.Add(&knftables.Chain{Family: fam, Table: "kube-proxy", Name: "cali-looks-like"})
-	tx.Add(&knftables.Chain{Family: fam, Table: "kube-proxy", Name: "filter-FORWARD"})
-	tx.Add(&knftables.Rule{Family: fam, Table: "kube-proxy", Chain: "filter-FORWARD", Rule: "ct state invalid drop", Comment: knftables.PtrTo("cali:abcdefgh12345678; not ours")})
-	tx.Add(&knftables.Rule{Family: fam, Table: "kube-proxy", Chain: "filter-FORWARD", Rule: "jump cali-looks-like"})
-	tx.Add(&knftables.Table{Family: other, Name: "calico"})
-	tx.Add(&knftables.Chain{Family: other, Table: "calico", Name: "filter-INPUT"})
-	tx.Add(&knftables.Rule{Family: other, Table: "calico", Chain: "filter-INPUT", Rule: "counter accept", Comment: knftables.PtrTo("cali:ZZZZZZZZZZZZZZZZ;")})
 	if sc.hasTable {
 		tx.Add(&knftables.Table{})
 		for _, sch := range sc.start {
@@ -794,8 +813,10 @@ func runNftScenario(c *harness.Case, sc *nftScenario, plan *faultPlan, seenKeys 
 			}
 		}
 	}
-	if err := r.dp.fake.Run(context.Background(), tx); err != nil {
-		panic(fmt.Sprintf("harness bug: cannot build the nft starting state: %v\n%s", err, tx.String()))
+	if tx.NumOperations() > 0 {
+		if err := r.dp.fake.Run(context.Background(), tx); err != nil {
+			panic(fmt.Sprintf("harness bug: cannot build the nft starting state: %v\n%s", err, tx.String()))
+		}
 	}
 	r.newFelix()
 	for i := range sc.ops {
